@@ -369,6 +369,34 @@ def gen_runlengths(rng, dist, rounds):
                     out.append("pp %d %d 1 1 %s" % (ll, prec, ";".join(pre + run + post)))
     return out
 
+def gen_adjacent_runs(rng, dist, rounds):
+    """two arithmetic runs back to back, the second starting with the value the first ended on, with
+    its successor, or elsewhere - at the very start of a list, array or message and behind a value"""
+    out = []
+    for _ in range(rounds):
+        for k in "ihc":
+            for d in (1, -1, 2):
+                for link in ("same", "next", "other"):
+                    a = rng.randint(60, 80) if k == "c" else rng.randint(-50, 50)
+                    n1, n2 = rng.choice([5, 6, 9]), rng.choice([5, 7])
+                    r1 = [a + j * d for j in range(n1)]
+                    b = {"same": r1[-1], "next": r1[-1] + d, "other": r1[-1] + 17}[link]
+                    d2 = rng.choice([d, -d])
+                    r2 = [b + j * d2 for j in range(n2)]
+                    vals = ["%s:%d" % (k, v) for v in r1 + r2]
+                    pre = [g_scalar(rng, rng.choice("TNs"))] if rng.random() < 0.3 else []
+                    pre = [x for x in pre if "2e2e2e" not in x]
+                    ll = rng.choice([40, 80, 120])
+                    place = rng.choice(["top", "array", "message"])
+                    dist["adjacent-runs-%s" % link] = dist.get("adjacent-runs-%s" % link, 0) + 1
+                    if place == "array":
+                        out.append("pp %d 2 1 1 %s" % (ll, ";".join(pre + ["a:%d:%d" % (ord(k), len(vals))] + vals)))
+                    elif place == "message":
+                        out.append("pm %d 2 1 1 %s %s" % (ll, ";".join(pre + vals), b"/part0/kit".hex()))
+                    else:
+                        out.append("pp %d 2 1 1 %s" % (ll, ";".join(pre + vals)))
+    return out
+
 def gen_calendar(rng, dist, n):
     """the calendar oracle pair (TimeFmt.date_of_secs / secs_of_date = localtime / mktime of libc, TZ=UTC):
     boundaries of days, months, leap years (2000 is one, 2100 is not), 2^31, 2^32 - 1, random seconds"""
@@ -390,7 +418,8 @@ def gen_calendar(rng, dist, n):
 
 def gen(rng, tier, dist):
     return (gen_calendar(rng, dist, 150 if tier == "quick" else 20000)
-            + gen_runlengths(rng, dist, 1 if tier == "quick" else 20) + gen_scalar(rng, tier, dist)
+            + gen_runlengths(rng, dist, 1 if tier == "quick" else 20)
+            + gen_adjacent_runs(rng, dist, 2 if tier == "quick" else 40) + gen_scalar(rng, tier, dist)
             + gen_struct(rng, tier, dist, 2500 if tier == "quick" else 120000))
 
 def gen_scalar(rng, tier, dist):
